@@ -50,10 +50,21 @@ def entry_keys(ndb):
         keys[e[0]] = k
     return keys
 
+def _join_and(ps):
+    out = []
+    for i, p in enumerate(ps):
+        out += ([32, 97, 110, 100, 32] if i else []) + list(p)
+    return out
+
 def model_arg(fn, a):
     a = norm(a)
-    if fn == 10:
+    if fn in (10, 11):
         a = [e2e_norm(a[0])] + a[1:]
+    if fn == 12:
+        nd = e2e_norm(a[0], roles=True)
+        as_fields = [[k, [e[0], e[1] + [[r, _join_and(ps)] for r, ps in e[2]], []]] for k, e in nd]    # person_fields=[]
+        plain = lambda db: [[k, [e[0], k, e[1], e[2]]] for k, e in db]
+        return [plain(as_fields), plain(nd), a[1], a[2], [norm('author')]]
     extra = [a[1]] if fn in (1, 2, 3) else []
     ndb, nextra = norm_spec(a[0], extra)
     keys = entry_keys(ndb)
@@ -72,6 +83,8 @@ def model_arg(fn, a):
         return [mdb, [[42]]] + a[2:]              # citations=None means every entry, like ['*']
     if fn == 10:
         return [mdb, a[1], a[2], norm(E2E_FIELDS)]     # (the style index a[3] is not the model's business)
+    if fn == 11:
+        return [mdb, a[1]]
     return [mdb] + a[1:]
 
 # ----------------------------------------------------------------------------------------
@@ -304,64 +317,88 @@ RUN_SCH = ('T', DB_SCH, ('L', 'S'), 'I', ('L', 'S'))
 NO_CITATIONS = [[60, 78, 111, 110, 101, 62]]     # ['<None>']: call format_bibliography without a citation list
 E2E_FIELDS = ['title', 'year', 'note']
 E2E_STYLES = ['unsrt', 'plain', 'alpha', 'unsrtalpha']
-def e2e_norm(db):
-    """the end-to-end stream recovers values from rendered text, so the value of field f of object i is
-    the token <F><i> and its key is k<i>, whatever the (possibly shrunk) spec says; only title/year/note/crossref are kept"""
+def e2e_norm(db, roles=False):
+    """the end-to-end streams recover values from rendered text, so the value of field f of object i is
+    the token <F><i> and its key is k<i>, whatever the (possibly shrunk) spec says; only title/year/note/crossref
+    are kept (roles=True: only crossref and the role author, whose persons are A<i> and, for odd i, B<i>); one entry per key"""
     ndb, _ = norm_spec(db)
-    out = []
+    out, seen = [], set()
     for k, e in ndb:
+        if e[0] in seen:
+            continue
+        seen.add(e[0])
         fs = []
         for f, v in e[1]:
             fl = S(f).lower()
-            if fl in E2E_FIELDS:
+            if fl in E2E_FIELDS and not roles:
                 fs.append([norm(fl), norm('%s%d' % (fl[0].upper(), e[0]))])
             elif fl == 'crossref':
                 fs.append([norm(fl), [c for c in v if (48 <= c < 58 or 65 <= c < 91 or 97 <= c < 123)]])
-        out.append([norm('k%d' % e[0]), [e[0], fs, []]])       # the key of object i is k<i>
-    return norm_spec(out)[0]
-def bib_text(ndb):
+        ps = [[norm('author'), [norm('A%d' % e[0])] + ([norm('B%d' % e[0])] if e[0] % 2 else [])]] if roles and any(S(r).lower() == 'author' for r, _ in e[2]) else []     # odd objects have two authors
+        out.append([norm('k%d' % e[0]), [e[0], fs, ps]])       # the key of object i is k<i>
+    return out
+
+def bib_text(ndb, roles=False):
     out = []
     for k, e in ndb:
-        fs = ['author = {A%d}' % e[0]] + ['%s = {%s}' % (S(f), S(v)) for f, v in e[1]]
+        if roles:      # the title is the entry's own (identifies it in the rendered text); author only if it has the role
+            fs = ['title = {T%d}' % e[0]] + ['author = {%s}' % ' and '.join(S(p) for p in ps) for r, ps in e[2]]
+        else:          # the author is the entry's own (identifies it in the rendered text)
+            fs = ['author = {A%d}' % e[0]]
+        fs += ['%s = {%s}' % (S(f), S(v)) for f, v in e[1]]
         out.append('@misc{%s,\n  %s\n}\n' % (S(k), ',\n  '.join(fs)))
     return '\n'.join(out)
 
-def impl_e2e(a):
-    """end to end from .bib text: the real BibTeX parser feeding (1) the BST interpreter with the
-    field-dumping style and (2) pybtex.format_from_string with a stock style (unsrt / plain / alpha / unsrtalpha) and
-    the plaintext backend; values are tokens T<i> / Y<i> / N<i> and the entry is identified by its author token A<i>,
-    all recovered from the rendered text"""
+def children_first(ndb):
+    """F13's ordering rule: every entry a crossref resolves to stands later in the file than the entry referring to it"""
+    pos = {}
+    for i, (k, e) in enumerate(ndb):
+        pos.setdefault(S(k).lower(), i)
+    for i, (k, e) in enumerate(ndb):
+        cr = _ci(e[1], 'crossref')
+        if cr is not None and S(cr).lower() in pos and pos[S(cr).lower()] <= i:
+            return False
+    return True
+
+def all_wanted(ndb, cits):
+    cs = set(S(c).lower() for c in cits)
+    return '*' in cs or all(S(k).lower() in cs for k, e in ndb)
+
+def run_e2e(bib, cits, minx, style, bst_fields, letters, id_letter):
+    """(1) the real BibTeX parser + BST interpreter with the field-dumping style, (2) pybtex.format_from_string with a
+    stock style and the plaintext backend; both read the file FILTERED by the citations (wanted_entries).
+    From the rendered text: the entry is identified by its own token <id_letter><i>, values are tokens <letter><i>."""
     import io, re, pybtex
     from pybtex import errors
     from pybtex.bibtex import bst
     from pybtex.bibtex.interpreter import Interpreter
     from pybtex.database.input.bibtex import Parser
     from pybtex.exceptions import PybtexError
-    ndb = e2e_norm(a[0])
-    bib = bib_text(ndb)
-    cits = [S(c) for c in a[1]]
     def run_bst():
-        script = _BST_CACHE.get(tuple(E2E_FIELDS))
+        script = _BST_CACHE.get(tuple(bst_fields))
         if script is None:
-            script = _BST_CACHE[tuple(E2E_FIELDS)] = list(bst.parse_string(bst_source(E2E_FIELDS)))
-        out = Interpreter(Parser, None).run(script, list(cits), [io.StringIO(bib)], a[2])
+            script = _BST_CACHE[tuple(bst_fields)] = list(bst.parse_string(bst_source(bst_fields)))
+        out = Interpreter(Parser, None).run(script, list(cits), [io.StringIO(bib)], minx)
         lines = out.split('\n')
+        n = len(bst_fields) + 1
         obs = []
-        for i in range(0, len(lines) - 1, 4):
-            obs.append([norm(lines[i]), [[] if l == '?' else [norm(l[1:-1])] for l in lines[i + 1:i + 4]]])
+        for i in range(0, len(lines) - 1, n):
+            obs.append([norm(lines[i]), [[] if l == '?' else [norm(l[1:-1])] for l in lines[i + 1:i + n]]])
         return obs
     def run_py():
-        style = E2E_STYLES[a[3] % len(E2E_STYLES)] if len(a) > 3 else 'unsrt'
-        text = pybtex.format_from_string(bib, style=style, citations=list(cits), output_backend='plaintext', min_crossrefs=a[2])
+        text = pybtex.format_from_string(bib, style=style, citations=list(cits), output_backend='plaintext', min_crossrefs=minx)
         obs = []
         for line in text.split('\n')[:-1]:
             assert re.match(r'\[\w+\] ', line), line
             line = line.split('] ', 1)[1]
-            who = re.findall(r'\bA\d+\b', line)
+            who = re.findall(r'\b%s\d+\b' % id_letter, line)
             assert len(who) == 1, line
             vals = []
-            for letter in 'TYN':
+            for letter in letters:
                 m = re.findall(r'\b%s\d+\b' % letter, line)
+                if len(letter) > 1:      # a list of persons: the tokens in order, joined like a field
+                    vals.append([norm(' and '.join(m))] if m else [])
+                    continue
                 assert len(m) <= 1, line
                 vals.append([norm(m[0])] if m else [])
             obs.append([norm('k' + who[0][1:]), vals])
@@ -390,6 +427,36 @@ def impl_e2e(a):
         except Exception:
             res.append([2])
     return align(res)
+
+def _style(a, i):
+    return E2E_STYLES[a[i] % len(E2E_STYLES)] if len(a) > i else 'unsrt'
+
+def impl_e2e(a):
+    """end to end from .bib text, fields title/year/note: tokens T<i> / Y<i> / N<i>, entry identified by its author A<i>"""
+    ndb = e2e_norm(a[0])
+    return run_e2e(bib_text(ndb), [S(c) for c in a[1]], a[2], _style(a, 3), E2E_FIELDS, 'TYN', 'A')
+
+def impl_e2e_roles(a):
+    """end to end from .bib text, the person role author: BST sees the field author (inherited through crossref),
+    the stock Python styles print it through names('author'); entry identified by its own title T<i>"""
+    ndb = e2e_norm(a[0], roles=True)
+    return run_e2e(bib_text(ndb, roles=True), [S(c) for c in a[1]], a[2], _style(a, 3), ['author'], ['[AB]'], 'T')
+
+def impl_read_filtered(a):
+    """Parser(wanted_entries=citations).parse_string(bib): which entries are in the database, under which key"""
+    from pybtex import errors
+    from pybtex.database.input.bibtex import Parser
+    ndb = e2e_norm(a[0])
+    try:
+        with errors.capture() as errs:
+            wanted = [S(c) for c in a[1][0]] if a[1] else None
+            bd = Parser(wanted_entries=wanted).parse_string(bib_text(ndb))
+            return [[[norm(k), norm(e.key), int(str(e.persons['author'][0])[1:])] for k, e in bd.entries.items()], len(errs)]
+    except (_Timeout, AssertionError):
+        raise
+    except Exception:
+        return [2]
+
 FUNCS = {
     1: ('Entry._find_field', guarded(impl_find_field), ('T', DB_SCH, E_SCH, 'S', 'B')),
     2: ('interpreter Field.value / Crossref.value', guarded(impl_field_value), ('T', DB_SCH, E_SCH, 'S')),
@@ -400,6 +467,8 @@ FUNCS = {
     7: ('BST engine, strict mode', guarded(lambda a: impl_bst_run(a, True)), RUN_SCH),
     8: ('Python engine, strict mode', guarded(lambda a: impl_py_run(a, True)), RUN_SCH),
     10: ('end to end: .bib text -> BibTeX parser -> BST interpreter / pybtex.format_from_string(stock style, plaintext)', guarded(impl_e2e), ('T', DB_SCH, ('L', 'S'), 'I', 'N')),
+    11: ('bibtex Parser(wanted_entries=citations).parse_string: the filtered database', guarded(impl_read_filtered), ('T', DB_SCH, ('O', ('L', 'S')))),
+    12: ('end to end, person role author: BST field vs names() of the stock Python styles', guarded(impl_e2e_roles), ('T', DB_SCH, ('L', 'S'), 'I', 'N')),
     9: ('Entry._find_field, every entry x every name', guarded(impl_find_all), ('T', DB_SCH, ('L', 'S'), 'B')),
 }
 
@@ -484,8 +553,6 @@ def oracle(fn, a, out):
             return 'field %r: expected %r (own field, else person role, else nearest definition along the crossref chain, else missing), got %r' % (name, exp, got)
         return None
     ndb, _ = norm_spec(a[0])
-    if fn == 10:
-        ndb = e2e_norm(a[0])
     table = _table(ndb)
     if fn == 9:
         ents = list(table.values())
@@ -500,23 +567,56 @@ def oracle(fn, a, out):
                     if got != exp:
                         return 'object %d, field %r: expected %r (own field, else person role, else nearest definition along the crossref chain, else missing), got %r' % (e[0], S(nm), exp, got)
         return None
-    if fn == 10:
+    if fn in (10, 12):
+        roles = fn == 12
+        ndb = e2e_norm(a[0], roles=roles); table = _table(ndb)
+        names = ['author'] if roles else E2E_FIELDS
+        style = E2E_STYLES[a[3] % len(E2E_STYLES)] if len(a) > 3 else 'unsrt'
         if len(out) != 2:
             return 'malformed implementation output'
         for which, o in zip(('BST', 'Python'), out):
             if o[:1] != [0]:
                 return '%s engine raised (%s) although errors are captured' % (which, 'foreign exception' if o == [2] else 'pybtex error')
-        m = oracle(5, [ndb, a[1], a[2], norm(E2E_FIELDS)], out[0])
+        # both engines read the file filtered by the citations; the nearest definition along the chain must be seen
+        # whatever the citation list is, as long as parents follow their children in the file (F13's ordering rule,
+        # property C05/C06) or nothing is filtered out
+        if not (children_first(ndb) or all_wanted(ndb, a[1])):
+            return None
+        m = oracle(5, [ndb, a[1], a[2], norm(names)], out[0])
         if m:
-            return 'end to end, ' + m
-        vb = sorted([S(o[0]).lower(), o[1]] for o in out[0][1][1]); vp = sorted([S(o[0]).lower(), o[1]] for o in out[1][1][1])
-        if vb != vp:
-            show = lambda rows: [(k, [S(v[0]) if v else None for v in r]) for k, r in rows]
-            return 'end to end: the engines disagree: BST sees %r, the Python %s style renders %r' % (
-                show(vb), E2E_STYLES[a[3] % len(E2E_STYLES)] if len(a) > 3 else 'unsrt', show(vp))
+            return 'end to end (file read filtered by the citations), ' + m
         cited = cited_entries(ndb, table, a[1])
+        seen_ids = set()
+        for key, vals in out[1][1][1]:
+            e = table.get(S(key).lower())
+            if e is None:
+                return 'end to end: the Python %s style formatted an entry %r that is not in the file' % (style, S(key))
+            seen_ids.add(e[0])
+            for f, v in zip(names, vals):
+                exp = expected(table, e, f); got = S(v[0]) if v else None
+                if got != exp:
+                    if roles and got is None and _own(e, f) is None:
+                        return ('Python %s style does not show the inherited person role %r of entry %r: the BST engine sees %r, '
+                                'names(%r) reads entry.persons only' % (style, f, S(key), exp, f))
+                    return 'end to end (file read filtered by the citations), Python %s style, entry %r, field %r: expected %r, rendered %r' % (style, S(key), f, exp, got)
+        for e in cited:
+            if e[0] not in seen_ids:
+                return 'end to end: cited entry k%d was not formatted by the Python %s style' % (e[0], style)
         if any(dangling(table, e) for e in cited) and 0 not in [(k[0] if isinstance(k, list) else k) for k in out[1][1][0]]:
             return 'end to end: a cited entry has a dangling crossref but the Python engine reported no bad cross-reference'
+        return None
+    if fn == 11:
+        ndb = e2e_norm(a[0]); table = _table(ndb)
+        if out == [2]:
+            return 'filtered reading crashed'
+        cits = a[1][0] if a[1] else [norm('*')]
+        if not (children_first(ndb) or all_wanted(ndb, cits)):
+            return None
+        have = set(r[2] for r in out[0])
+        for e in cited_entries(ndb, table, cits):
+            for x in chain(table, e):
+                if x[0] not in have:
+                    return 'filtered reading (wanted_entries=%r) dropped k%d, an ancestor of the cited entry k%d' % ([S(c) for c in cits], x[0], e[0])
         return None
     if out == [2]:
         return 'crashed with a foreign exception instead of reporting'
@@ -643,6 +743,9 @@ def rand_db(rng, n, p_cross=0.7, p_dangle=0.1, alias=False, dupkeys=False):
         db.insert(rng.randrange(len(db) + 1), [db[j][0].swapcase(), mk(90, title=True, crossref=pool[0])])   # repeated key: ignored
     return db
 
+# finding FC14a: child without author, crossref to a parent with an author; only the child is cited
+FC14A_PINNED = [[['k0', [0, [['crossref', 'k1']], []]], ['k1', [1, [], [['author', ['A1']]]]]], ['k0'], 2, 0]
+
 QNAMES = ['title', 'editor', 'year', 'crossref', 'TITLE', 'Editor', 'note', 'translator', 'author', '']
 
 def _warmup():
@@ -651,7 +754,7 @@ def _warmup():
     try:
         a = [[['a', [0, [['crossref', 'a']], []]]], ['a'], 2]
         for st in range(len(E2E_STYLES)):
-            impl_e2e(norm(a + [st]))
+            impl_e2e(norm(a + [st])); impl_e2e_roles(norm(a + [st]))
         impl_py_run(norm(a + [['title']])); impl_bst_run(norm(a + [['title']]))
     except Exception:
         pass
@@ -747,6 +850,51 @@ def gen(tier, rng):
                 keys = [k for k, _ in db]
                 cits = ['*'] if rng.random() < 0.3 else [k.upper() if rng.random() < 0.3 else k for k in rng.sample(keys, len(keys))]
                 yield ('end_to_end', 10, [db, cits, rng.choice([2, 1]), rng.choice([0, 0, 1, 2, 3])])
+    # ---- chains read FILTERED by the citation list (what both engines do): chain length 0..3 x which ancestor defines
+    #      the field x citation lists (child only / child + some ancestors / *) x min_crossrefs 1..3; children first
+    sidx = 0
+    for L in range(0, 4):
+        for definer in [None] + list(range(L + 1)):
+            cit_sets = [['k0'] + ['k%d' % j for j in range(1, L + 1) if (mask >> (j - 1)) & 1] for mask in range(1 << L)] + [['*']]
+            for cits in cit_sets:
+                for minx in (1, 2, 3):
+                    db = []
+                    for i in range(L + 1):
+                        f = []
+                        if definer == i:
+                            f.append(['title', 'T%d' % i])
+                        if rng.random() < 0.3:
+                            f.append(['year', 'Y%d' % i])
+                        if i == L and rng.random() < 0.5:
+                            f.append(['note', 'N%d' % i])
+                        if i < L:
+                            f.append(['crossref', ('K%d' if rng.random() < 0.2 else 'k%d') % (i + 1)])
+                        db.append(['k%d' % i, [i, f, []]])
+                    db.append(['k%d' % (L + 1), [L + 1, [['title', 'T%d' % (L + 1)]], []]])        # an unrelated, uncited entry
+                    cs = [c.upper() if rng.random() < 0.15 else c for c in cits]
+                    if rng.random() < 0.3:
+                        cs = cs[::-1]
+                    sidx += 1
+                    yield ('filtered_chains', 10, [db, cs, minx, sidx % 4])
+                    if minx == 2:
+                        yield ('filtered_chains', 11, [db, [cs]])
+    yield ('filtered_chains', 11, [e2e_db(3, ['k1', 'k2', None], [[1, 0, 0]] * 3), []])
+    # parents BEFORE children with a filtering citation list: F13's territory (C05/C06), model vs code only
+    for i in range(20 if quick else 200):
+        n = rng.choice([2, 3, 4])
+        xs = [rng.choice([None] + ['k%d' % j for j in range(n)]) for _ in range(n)]
+        db = e2e_db(n, xs, [[rng.random() < 0.4 for _ in E2E_FIELDS] for _ in range(n)])
+        cits = rng.sample([k for k, _ in db], rng.randint(1, n))
+        yield ('filtered_any_order', 10, [db, cits, rng.choice([1, 2]), rng.randrange(4)])
+        yield ('filtered_any_order', 11, [db, [cits]])
+    # ---- the person role author through both engines: BST sees the inherited field, the stock styles use names()
+    for L in range(1, 4):
+        for mask in range(1 << (L + 1)):
+            for cits in (['k0'], ['k%d' % j for j in range(L + 1)], ['*']):
+                db = [['k%d' % i, [i, ([['crossref', 'k%d' % (i + 1)]] if i < L else []), ([['author', ['A%d' % i]]] if (mask >> i) & 1 else [])]] for i in range(L + 1)]
+                sidx += 1
+                yield ('person_roles', 12, [db, cits, 1 + sidx % 2, sidx % 4])
+    yield ('pinned', 12, FC14A_PINNED)
     f5bib = [['k0', [0, [['crossref', 'k1']], []]], ['k1', [1, [['title', 'T1'], ['year', 'Y1'], ['note', 'N1']], []]]]
     yield ('pinned', 10, [f5bib, ['k0', 'k1'], 2, 0]); yield ('pinned', 10, [f5bib, ['*'], 1, 1])
     yield ('pinned', 10, [[['k0', [0, [['crossref', 'k0']], []]], ['k1', [1, [['crossref', 'k0'], ['note', 'N1']], []]]], ['k1', 'k0'], 2, 2])
@@ -770,6 +918,20 @@ def gen(tier, rng):
             yield ('malformed', fn, [db, cits, minx, ['title', 'crossref']])
         yield ('malformed', 1, [db, rng.choice(db)[1], rng.choice(['title', 'crossref', '', 'CROSSREF']), 1])
 
+KNOWN_SIGNATURES = {
+    # narrow: only the Python-side "inherited person role not shown" message of the role stream; a BST-side failure, a
+    # wrong (rather than absent) value, or any failure of an own role is still reported
+    'FC14a': lambda kind, fn, arg, detail: kind == 'oracle' and fn == 12 and isinstance(detail, str)
+             and detail.startswith('Python ') and 'does not show the inherited person role' in detail,
+}
+
+def replay_known(finding):
+    if finding.get('id') == 'FC14a':
+        p = finding['pinned']
+        a = norm(p['arg'])
+        return oracle(p['fn'], a, FUNCS[p['fn']][1](a))
+    return None
+
 def nontrivial(fn, a, out):
     return out[:1] == [0] and any(_ci(e[1], 'crossref') is not None for k, e in a[0])
 
@@ -777,7 +939,11 @@ def describe(fn, a):
     def ent(e):
         return {'object': e[0], 'fields': {S(k): S(v) for k, v in e[1]}, 'persons': {S(r): [S(p) for p in ps] for r, ps in e[2]}}
     d = {'function': FUNCS[fn][0], 'database': [[S(k), ent(e)] for k, e in a[0]]}
-    if fn == 10:
+    if fn == 12:
+        d['python_style'] = E2E_STYLES[a[3] % len(E2E_STYLES)] if len(a) > 3 else 'unsrt'; d['citations'] = [S(c) for c in a[1]]; d['min_crossrefs'] = a[2]; d['bib'] = bib_text(e2e_norm(a[0], roles=True), roles=True)
+    elif fn == 11:
+        d['wanted_entries'] = [S(c) for c in a[1][0]] if a[1] else None; d['bib'] = bib_text(e2e_norm(a[0]))
+    elif fn == 10:
         d['python_style'] = E2E_STYLES[a[3] % len(E2E_STYLES)] if len(a) > 3 else 'unsrt'; d['citations'] = [S(c) for c in a[1]]; d['min_crossrefs'] = a[2]; d['bib'] = bib_text(e2e_norm(a[0]))
     elif fn == 9:
         d['fields'] = [S(f) for f in a[1]]; d['bib_data_passed'] = bool(a[2])
@@ -914,17 +1080,22 @@ RULE = ('exhaustive: every cross-reference graph over n <= 3 entries (crossref o
         'writing every field; Python: BaseStyle.format_bibliography with a template writing every field) and through the glue '
         '(Field.value, Crossref.value, template field(), add_extra_citations, strict mode). random: graphs of 2..12 entries '
         '(chains, cycles, trees, random), key/field-name case variation, aliased objects, repeated keys, foreign start entry, '
-        'empty values, roles without persons, citations incl. *, missing and repeated ones, min_crossrefs -1..3. long: chains and '
+        'empty values, roles without persons, citations incl. *, missing and repeated ones, min_crossrefs -1..3. filtered_chains: from .bib text, '
+        'both engines reading the file filtered by the citations -- chains of length 0..3 x which ancestor defines the field x every citation list '
+        '(child + any subset of ancestors, *) x min_crossrefs 1..3 x four stock styles, children first; the same through Parser(wanted_entries). '
+        'person_roles: chains 1..3 x every assignment of the role author x citation lists, BST field vs names() of the stock styles. long: chains and '
         'cycles of 20..150 entries. malformed: half of the crossrefs dangling. distinct = distinct (function, argument); '
         'non-trivial = the database has at least one crossref field and the call returned.')
-EXHAUSTIVE = {'quick': 'all graphs over <= 3 entries x {title, editor} assignments x all start entries x {title, editor} via Entry._find_field (engines: all for n <= 2, every 4th database for n = 3)',
+EXHAUSTIVE = {'quick': 'all chains of length 0..3 x defining ancestor x citation subsets x min_crossrefs 1..3 read filtered through both engines; all graphs over <= 3 entries x {title, editor} assignments x all start entries x {title, editor} via Entry._find_field (engines: all for n <= 2, every 4th database for n = 3)',
               'thorough': 'as quick with both engines on every database, plus 2 entries x {title, editor, year}, plus all graphs over 4 entries x title assignments'}
-TRUSTED_BASE = ['modelled (not verified) code: pybtex/database/__init__.py Entry._find_field/_find_person_field/_find_crossref_field, BibliographyData.add_extra_citations/_expand_wildcard_citations/_get_crossreferenced_citations; pybtex/bibtex/interpreter.py Field.value/Crossref.value/command_read/remove_missing_citations/_iterate; pybtex/style/template.py field(); pybtex/style/formatting/__init__.py format_bibliography/format_entries/format_entry',
+TRUSTED_BASE = ['modelled (not verified) code: pybtex/database/__init__.py Entry._find_field/_find_person_field/_find_crossref_field, BibliographyData.add_extra_citations/_expand_wildcard_citations/_get_crossreferenced_citations; pybtex/bibtex/interpreter.py Field.value/Crossref.value/command_read/remove_missing_citations/_iterate; pybtex/style/template.py field() and names(); BibliographyData.want_entry/get_canonical_key/add_entry (filtered reading); pybtex/style/formatting/__init__.py format_bibliography/format_entries/format_entry',
                 'str(Person) is an input of the model (a person is represented by its str()); the .bib parsers, the BST built-ins missing$/if$/write$/newline$ and the template combinators first_of/optional/join are exercised by the implementation runs but not modelled']
 ASSUMPTIONS = ['keys and field names are ASCII (str.lower modelled on ASCII)',
                'cross-reference chains stay below CPython\'s recursion limit (498 hops from the top level at the default limit of 1000; deeper chains raise RecursionError); the model has no recursion limit',
                'object identity: two Entry objects with the same identity have the same content (trivially true in Python; a hypothesis ids_wf of the chain theorems)']
-PARTIAL = ['engines_agree / engines_agree_field are about ONE database handed to both engines; that the two engines build their databases differently from .bib text (BST: author/editor are fields, Python: persons) is outside the model and is covered by the end-to-end stream (title/year/note, four stock styles) only',
+PARTIAL = ['names_inherit_refuted / names_own_partial: the stock styles\' names(role) does not see an inherited person role (known finding FC14a); the statement holds for roles the entry has itself and for every field read through field()',
+           'filtered_chain_inherits assumes distinct keys and children-before-parents file order (the other order is finding F13 of C05/C06; Example children_first_needed)',
+           'engines_agree / engines_agree_field are about ONE database handed to both engines; that the two engines build their databases differently from .bib text (BST: author/editor are fields, Python: persons) is outside the model and is covered by the end-to-end stream (title/year/note, four stock styles) only',
            'the chain theorems (find_field_spec, inherits_nearest, missing_along_chain) assume object identity ids_wf; find_terminates and own_field_wins do not',
            'CPython\'s recursion limit is not modelled: beyond 498 hops the implementation raises RecursionError (terminates, but not with a value)',
            'the BST variable named crossref (Crossref.value) is excluded from engines_agree: it is the resolved key, not an inherited field']
